@@ -755,18 +755,14 @@ theorem toRegion_inv {sh : RShape} {x : RReg} (h : toRegion sh = .ok x) :
       exact ⟨h.symm, rfl, rfl⟩
 
 theorem buildRegion_vals (sh : RShape) :
-    (buildRegion sh).pts.map (fun p => (p.1.v, p.2.v)) = sh.pts.map (fun p => (p.1.v, p.2.v)) ∧
-    (buildRegion sh).sizes.map (·.v) = sh.sizes.map (·.v) := by
+    (buildRegion sh).sizes.map (·.v) = sh.sizes.map (·.v) ∧
+    (buildRegion sh).pts = regionPts sh.coordsys sh.pts ∧ (buildRegion sh).frame = sh.coordsys := by
   unfold buildRegion
-  constructor
-  · simp only
-    split_ifs
-    · simp [List.map_map, Function.comp_def, dropUnit]
-    · rfl
-  · simp only
-    split_ifs
-    · simp [List.map_map, Function.comp_def, dropUnit]
-    · rfl
+  refine ⟨?_, rfl, rfl⟩
+  simp only
+  split_ifs
+  · simp [List.map_map, Function.comp_def, dropUnit]
+  · rfl
 
 /-! ### geometry -/
 
@@ -839,6 +835,14 @@ def bAngle : Body → Option ℚ
   | .ellipse _ _ _ g => some g.d.val
   | .rotbox _ _ _ g => some g.d.val
   | _ => none
+
+/-- the units of the longitudes a line denotes. -/
+def bLonUnits : Body → List U
+  | .circle c _ => [c.1.toQ.u] | .annulus c _ _ => [c.1.toQ.u] | .ellipse c _ _ _ => [c.1.toQ.u]
+  | .box c1 _ => [c1.1.toQ.u]
+  | .centerbox c _ _ => [c.1.toQ.u] | .rotbox c _ _ _ => [c.1.toQ.u]
+  | .poly vs => vs.map fun p => p.1.toQ.u | .line p q => [p.1.toQ.u, q.1.toQ.u]
+  | .symbol c _ => [c.1.toQ.u] | .point c => [c.1.toQ.u] | .text c _ => [c.1.toQ.u]
 
 /-- the reader's geometry in terms of the tokens: whenever a line is accepted, the kind,
 the coordinates, the sizes and the angle are these. -/
@@ -923,6 +927,83 @@ theorem bodyGeom_vals (b : Body) (k : Kind) (pts : List (Q × Q)) (sz : List Q) 
     simp only [bodyGeom, Except.ok.injEq, Prod.mk.injEq] at h
     obtain ⟨rfl, rfl, rfl, rfl⟩ := h
     simp [bKind, bPts, bSizes, bAngle, ptQ, ptV]
+
+/-- … and the units of the longitudes are those of the tokens. -/
+theorem bodyGeom_lonUnits (b : Body) (k : Kind) (pts : List (Q × Q)) (sz : List Q) (a : Option Q)
+    (h : bodyGeom b = .ok (k, pts, sz, a)) : pts.map (fun p => p.1.u) = bLonUnits b := by
+  cases b with
+  | circle c r =>
+    simp only [bodyGeom] at h
+    rcases toQ_cases r with ⟨a1, h1, v1, -⟩ | ⟨h1, -⟩ <;>
+      simp only [h1, bind, Except.bind, pure, Except.pure, Except.ok.injEq, Prod.mk.injEq, reduceCtorEq] at h
+    obtain ⟨rfl, rfl, rfl, rfl⟩ := h
+    simp [bLonUnits, ptQ, List.map_map, Function.comp_def]
+  | annulus c r1 r2 =>
+    simp only [bodyGeom] at h
+    rcases toQ_cases r1 with ⟨a1, h1, v1, -⟩ | ⟨h1, -⟩ <;> rcases toQ_cases r2 with ⟨a2, h2, v2, -⟩ | ⟨h2, -⟩ <;>
+      simp only [h1, h2, bind, Except.bind, pure, Except.pure, Except.ok.injEq, Prod.mk.injEq, reduceCtorEq] at h
+    obtain ⟨rfl, rfl, rfl, rfl⟩ := h
+    simp [bLonUnits, ptQ, List.map_map, Function.comp_def]
+  | ellipse c a' b' g =>
+    simp only [bodyGeom] at h
+    rcases toQ_cases a' with ⟨a1, h1, v1, -⟩ | ⟨h1, -⟩ <;> rcases toQ_cases b' with ⟨a2, h2, v2, -⟩ | ⟨h2, -⟩ <;>
+      rcases toQ_cases g with ⟨a3, h3, v3, -⟩ | ⟨h3, -⟩ <;>
+      simp only [h1, h2, h3, bind, Except.bind, pure, Except.pure, Except.ok.injEq, Prod.mk.injEq, reduceCtorEq] at h
+    obtain ⟨rfl, rfl, rfl, rfl⟩ := h
+    simp [bLonUnits, ptQ]
+  | box c1 c2 =>
+    simp only [bodyGeom] at h
+    cases hx : boxMid c1.1.toQ c2.1.toQ with
+    | error e => rw [hx] at h; simp [bind, Except.bind] at h
+    | ok vx =>
+      cases hy : boxMid c1.2.toQ c2.2.toQ with
+      | error e => rw [hx, hy] at h; simp [bind, Except.bind] at h
+      | ok vy =>
+        rw [hx, hy] at h
+        simp only [bind, Except.bind, pure, Except.pure, Except.ok.injEq, Prod.mk.injEq] at h
+        obtain ⟨rfl, rfl, rfl, rfl⟩ := h
+        unfold boxMid at hx hy
+        split_ifs at hx hy
+        simp only [Except.ok.injEq] at hx hy
+        subst hx; subst hy
+        simp [bLonUnits]
+  | centerbox c w hh =>
+    simp only [bodyGeom] at h
+    rcases toQ_cases w with ⟨a1, h1, v1, -⟩ | ⟨h1, -⟩ <;> rcases toQ_cases hh with ⟨a2, h2, v2, -⟩ | ⟨h2, -⟩ <;>
+      simp only [h1, h2, bind, Except.bind, pure, Except.pure, Except.ok.injEq, Prod.mk.injEq, reduceCtorEq] at h
+    obtain ⟨rfl, rfl, rfl, rfl⟩ := h
+    simp [bLonUnits, ptQ, List.map_map, Function.comp_def]
+  | rotbox c w hh g =>
+    simp only [bodyGeom] at h
+    rcases toQ_cases w with ⟨a1, h1, v1, -⟩ | ⟨h1, -⟩ <;> rcases toQ_cases hh with ⟨a2, h2, v2, -⟩ | ⟨h2, -⟩ <;>
+      rcases toQ_cases g with ⟨a3, h3, v3, -⟩ | ⟨h3, -⟩ <;>
+      simp only [h1, h2, h3, bind, Except.bind, pure, Except.pure, Except.ok.injEq, Prod.mk.injEq, reduceCtorEq] at h
+    obtain ⟨rfl, rfl, rfl, rfl⟩ := h
+    simp [bLonUnits, ptQ, List.map_map, Function.comp_def]
+  | poly vs =>
+    simp only [bodyGeom] at h
+    split_ifs at h
+    simp only [Except.ok.injEq, Prod.mk.injEq] at h
+    obtain ⟨rfl, rfl, rfl, rfl⟩ := h
+    simp [bLonUnits, ptQ, List.map_map, Function.comp_def]
+  | line p q =>
+    simp only [bodyGeom, Except.ok.injEq, Prod.mk.injEq] at h
+    obtain ⟨rfl, rfl, rfl, rfl⟩ := h
+    simp [bLonUnits, ptQ, List.map_map, Function.comp_def]
+  | symbol c sy =>
+    simp only [bodyGeom] at h
+    split_ifs at h
+    simp only [Except.ok.injEq, Prod.mk.injEq] at h
+    obtain ⟨rfl, rfl, rfl, rfl⟩ := h
+    simp [bLonUnits, ptQ, List.map_map, Function.comp_def]
+  | point c =>
+    simp only [bodyGeom, Except.ok.injEq, Prod.mk.injEq] at h
+    obtain ⟨rfl, rfl, rfl, rfl⟩ := h
+    simp [bLonUnits, ptQ, List.map_map, Function.comp_def]
+  | text c t =>
+    simp only [bodyGeom, Except.ok.injEq, Prod.mk.injEq] at h
+    obtain ⟨rfl, rfl, rfl, rfl⟩ := h
+    simp [bLonUnits, ptQ, List.map_map, Function.comp_def]
 
 /-- the parameter lists a region class has (`regions_attributes`). -/
 def arityOK : Kind → List (ℚ × ℚ) → List ℚ → Option ℚ → Bool
@@ -1044,6 +1125,93 @@ theorem written_geometry (R R2 : ℚ → ℚ → Prop) (q : Quirks) (o : Opts)
     · exact List.Forall₂.cons ⟨by simpa [ptV, dec_toQ_v] using hR c.1,
         by simpa [ptV, dec_toQ_v] using hR c.2⟩ List.Forall₂.nil
     · simp only [reduceCtorEq, if_false, bSizes]; exact List.Forall₂.nil
+
+/-- the unit the writer puts on coordinates: `deg`, or `pix` under `coordsys='image'` (F21). -/
+def cuOf (q : Quirks) (o : Opts) : CUnit := if !q.pixAsDeg && isImage o.coordsys then .pix else .deg
+
+def cQ (q : Quirks) (o : Opts) (x : ℚ) : Q := Coord.toQ (.dec (fmtDec o.prec x) (cuOf q o))
+
+/-- the unit every written longitude is read with. -/
+def lonU (q : Quirks) (o : Opts) : U := (Coord.toQ (.dec ⟨false, 0, 0⟩ (cuOf q o))).u
+
+theorem dec_lonU (q : Quirks) (o : Opts) (d : Dec) : (Coord.toQ (.dec d (cuOf q o))).u = lonU q o := by
+  unfold lonU; cases cuOf q o <;> rfl
+
+theorem lonU_cases (q : Quirks) (o : Opts) : lonU q o = .deg ∨ lonU q o = .none := by
+  unfold lonU cuOf; split_ifs <;> simp [Coord.toQ]
+
+/-- all longitudes of a written line carry that unit. -/
+theorem written_lonUnits (q : Quirks) (o : Opts) (cs : String) (kind : Kind) (sky : Bool)
+    (pts : List (ℚ × ℚ)) (sizes : List ℚ) (angle : Option ℚ) (mt m : AList) (incl : Option MVal)
+    (b : Body) (hA : arityOK kind pts sizes angle = true)
+    (hw : writeBody q o ⟨cs, kind, sky, flatten pts ++ sizes ++ angle.toList, mt, incl⟩ m = .ok b) :
+    ∀ u ∈ bLonUnits b, u = lonU q o := by
+  unfold arityOK at hA
+  split at hA <;> try (exact absurd hA Bool.false_ne_true)
+  all_goals
+    simp only [writeBody, flatten, List.cons_append, List.nil_append, Option.toList_none, Option.toList_some,
+      List.append_nil, pairsOf_flatten] at hw
+  · simp only [Except.ok.injEq] at hw; subst hw
+    intro u hu; simp only [bLonUnits, List.mem_singleton] at hu; subst hu; exact dec_lonU q o _
+  · simp only [Except.ok.injEq] at hw; subst hw
+    intro u hu; simp only [bLonUnits, List.mem_singleton] at hu; subst hu; exact dec_lonU q o _
+  · simp only [Except.ok.injEq] at hw; subst hw
+    intro u hu; simp only [bLonUnits, List.mem_singleton] at hu; subst hu; exact dec_lonU q o _
+  · simp only [Except.ok.injEq] at hw; subst hw
+    intro u hu; simp only [bLonUnits, List.mem_singleton] at hu; subst hu; exact dec_lonU q o _
+  · simp only [Except.ok.injEq] at hw; subst hw
+    intro u hu
+    simp only [bLonUnits, List.map_map, List.mem_map, Function.comp_def] at hu
+    obtain ⟨t, -, rfl⟩ := hu
+    exact dec_lonU q o _
+  · simp only [Except.ok.injEq] at hw; subst hw
+    intro u hu
+    simp only [bLonUnits, List.mem_cons, List.mem_singleton, List.not_mem_nil, or_false] at hu
+    rcases hu with rfl | rfl <;> exact dec_lonU q o _
+  · split at hw <;> simp only [Except.ok.injEq] at hw <;> subst hw <;>
+    · intro u hu; simp only [bLonUnits, List.mem_singleton] at hu; subst hu; exact dec_lonU q o _
+  · split at hw <;> simp only [Except.ok.injEq, reduceCtorEq] at hw
+    subst hw
+    intro u hu; simp only [bLonUnits, List.mem_singleton] at hu; subst hu; exact dec_lonU q o _
+
+/-! ### longitudes are stored wrapped into [0, 360) -/
+
+/-- `v mod 360` into `[0, 360)`. -/
+def wrap360 (v : ℚ) : ℚ := v - 360 * ⌊v / 360⌋
+
+theorem turn_nonneg (u : U) : 0 ≤ turn u := by
+  cases u <;> simp only [turn] <;> try norm_num
+  unfold radDeg; norm_num
+
+theorem wrapLon_u (a : Q) : (wrapLon a).u = a.u := by
+  unfold wrapLon; split_ifs <;> rfl
+
+theorem wrapLon_v (a : Q) :
+    (wrapLon a).v = if turn a.u = 0 then a.v else a.v - turn a.u * ⌊a.v / turn a.u⌋ := by
+  unfold wrapLon; split_ifs <;> rfl
+
+theorem wrap_range (t v : ℚ) (ht : 0 < t) : 0 ≤ v - t * ⌊v / t⌋ ∧ v - t * ⌊v / t⌋ < t := by
+  have h1 := Int.floor_le (v / t)
+  have h2 := Int.lt_floor_add_one (v / t)
+  rw [le_div_iff₀ ht] at h1
+  rw [div_lt_iff₀ ht] at h2
+  constructor <;> nlinarith
+
+theorem wrap_idem (t v : ℚ) (ht : 0 < t) :
+    (v - t * ⌊v / t⌋) - t * ⌊(v - t * ⌊v / t⌋) / t⌋ = v - t * ⌊v / t⌋ := by
+  obtain ⟨h0, h1⟩ := wrap_range t v ht
+  have : ⌊(v - t * ⌊v / t⌋) / t⌋ = 0 := by
+    rw [Int.floor_eq_zero_iff]
+    exact ⟨div_nonneg h0 ht.le, (div_lt_one ht).mpr h1⟩
+  rw [this]; simp
+
+/-- wrapping an already wrapped longitude (same unit) changes nothing. -/
+theorem wrapLon_idem (a b : Q) (hu : b.u = a.u) (hv : b.v = (wrapLon a).v) : (wrapLon b).v = b.v := by
+  rw [wrapLon_v, hu]
+  by_cases ht : turn a.u = 0
+  · rw [if_pos ht]
+  · rw [if_neg ht, hv, wrapLon_v, if_neg ht]
+    exact wrap_idem _ _ (lt_of_le_of_ne (turn_nonneg _) (Ne.symm ht))
 
 /-! ### metadata: dictionaries have distinct keys -/
 
@@ -1368,10 +1536,74 @@ def isScalar : MVal → Bool
   | .str _ | .int _ | .bool _ => true
   | _ => false
 
+/-- the longitude `b` stored in the region object, from the longitude `v` the line denotes:
+a pixel coordinate is kept, a sky longitude is wrapped into `[0, 360)` — the same position. -/
+def LonOf (v b : ℚ) : Prop := b = v ∨ b = wrap360 v
+
+/-- `R` between a point of the input region and the point read back, longitudes as positions
+on the sphere (modulo whole turns), latitudes as they are. -/
+def RelPtW (R : ℚ → ℚ → Prop) (a b : ℚ × ℚ) : Prop := (∃ v, R a.1 v ∧ LonOf v b.1) ∧ R a.2 b.2
+
+/-- `GeomRel` with longitudes modulo whole turns. -/
+def GeomRelW (R R2 : ℚ → ℚ → Prop) (kind : Kind) (pts : List (ℚ × ℚ)) (sizes : List ℚ) (angle : Option ℚ)
+    (pts' : List (ℚ × ℚ)) (sizes' : List ℚ) (angle' : Option ℚ) : Prop :=
+  List.Forall₂ (RelPtW R) pts pts' ∧
+  (if kind = .ellipse then List.Forall₂ R2 sizes sizes' else List.Forall₂ R sizes sizes') ∧
+  (match angle, angle' with
+    | some x, some y => R x y
+    | none, none => True
+    | _, _ => False)
+
+/-- read honestly: the longitude read back is within half a unit of the one written, up to a
+whole number of turns of 360 degrees. -/
+theorem relPtW_close_mod360 (p : Nat) (a b : ℚ × ℚ) (h : RelPtW (Close p) a b) :
+    (∃ k : ℤ, Close p a.1 (b.1 + 360 * k)) ∧ Close p a.2 b.2 := by
+  obtain ⟨⟨v, hv, hl⟩, h2⟩ := h
+  refine ⟨?_, h2⟩
+  rcases hl with hl | hl
+  · exact ⟨0, by rw [hl]; simpa using hv⟩
+  · refine ⟨⌊v / 360⌋, ?_⟩
+    rw [hl]; unfold wrap360
+    have : v - 360 * (⌊v / 360⌋ : ℚ) + 360 * (⌊v / 360⌋ : ℚ) = v := by ring
+    rw [this]; exact hv
+
+/-- the coordinates of the region object from those the line denotes (all longitudes in
+degrees or unit-less): latitudes unchanged, longitudes kept or wrapped. -/
+theorem regionPts_lon (f : String) (ptsS : List (Q × Q)) (hu : ∀ p ∈ ptsS, p.1.u = .deg ∨ p.1.u = .none) :
+    List.Forall₂ (fun (s b : ℚ × ℚ) => LonOf s.1 b.1 ∧ b.2 = s.2) (ptsS.map fun p => (p.1.v, p.2.v))
+      ((regionPts f ptsS).map fun p => (p.1.v, p.2.v)) := by
+  unfold regionPts
+  split_ifs
+  · simp only [List.map_map, Function.comp_def, dropUnit]
+    induction ptsS with
+    | nil => exact List.Forall₂.nil
+    | cons a r ih =>
+      exact List.Forall₂.cons ⟨Or.inl rfl, rfl⟩ (ih fun p hp => hu p (List.mem_cons_of_mem _ hp))
+  · simp only [List.map_map, Function.comp_def]
+    induction ptsS with
+    | nil => exact List.Forall₂.nil
+    | cons a r ih =>
+      refine List.Forall₂.cons ⟨?_, rfl⟩ (ih fun p hp => hu p (List.mem_cons_of_mem _ hp))
+      simp only
+      rw [wrapLon_v]
+      rcases hu a List.mem_cons_self with h | h <;> rw [h]
+      · right; simp [turn, wrap360]
+      · left; simp [turn]
+
+theorem forall₂_relPtW (R : ℚ → ℚ → Prop) {A B C : List (ℚ × ℚ)} (h1 : List.Forall₂ (RelPt R) A B)
+    (h2 : List.Forall₂ (fun (s b : ℚ × ℚ) => LonOf s.1 b.1 ∧ b.2 = s.2) B C) : List.Forall₂ (RelPtW R) A C := by
+  induction h1 generalizing C with
+  | nil => cases h2; exact List.Forall₂.nil
+  | cons hab _ ih =>
+    cases h2 with
+    | cons hbc hr =>
+      refine List.Forall₂.cons ⟨⟨_, hab.1, hbc.1⟩, ?_⟩ (ih hr)
+      rw [hbc.2]; exact hab.2
+
 /-- what the property promises for one region `r` and the region `x` read back. -/
 structure RT (q : Quirks) (o : Opts) (r : WReg) (x : RReg) : Prop where
   kind : x.kind = r.kind
-  geom : GeomClose o.prec r.kind r.pts r.sizes r.angle
+  geom : GeomRelW (Close o.prec) (Close2 o.prec) r.kind r.pts r.sizes r.angle
            (x.pts.map fun p => (p.1.v, p.2.v)) (x.sizes.map (·.v)) (x.angle.map (·.v))
   incl : x.mt.get? .include = some (.bool (!wExcl r))
   ann : x.mt.get? .type = some (.str (if wAnn r then "ann" else "reg"))
@@ -1419,12 +1651,109 @@ theorem arity_text (p : List (ℚ × ℚ)) (sz : List ℚ) (a : Option ℚ)
   unfold arityOK at h
   split at h <;> simp_all
 
+theorem written_lonUnits' (q : Quirks) (o : Opts) (s : WShape) (kind : Kind)
+    (pts : List (ℚ × ℚ)) (sizes : List ℚ) (angle : Option ℚ) (m : AList)
+    (b : Body) (hk : s.kind = kind) (hc : s.coord = flatten pts ++ sizes ++ angle.toList)
+    (hA : arityOK kind pts sizes angle = true) (hw : writeBody q o s m = .ok b) :
+    ∀ u ∈ bLonUnits b, u = lonU q o := by
+  obtain ⟨cs, kind', sky, coord, mt, incl⟩ := s
+  simp only at hk hc
+  subst hk; subst hc
+  exact written_lonUnits q o cs _ sky pts sizes angle mt m incl b hA hw
+
+/-- the geometry part of the per-region chain for ANY pair of relations that hold between a
+number and its printed decimal (used for closeness, for the decimal grid, and for exactness
+on the grid): the line denotes points `ptsS` related to the region's, all longitudes in the
+unit `lonU q o`, and the region object holds `regionPts` of them (pixel: bare values; sky:
+longitudes wrapped into [0, 360)). -/
+theorem chain_geom (R R2 : ℚ → ℚ → Prop) (q : Quirks) (qn : String → String) (o : Opts) (g : String)
+    (hR : ∀ x, R x (fmtDec o.prec x).val) (hR2 : ∀ w, R2 w (2 * (fmtDec o.prec (w / 2)).val))
+    (r : WReg) (x : RReg) (h : Chain q qn o g r x)
+    (hA : arityOK r.kind r.pts r.sizes r.angle = true) :
+    x.kind = r.kind ∧
+    ∃ ptsS : List (Q × Q),
+      GeomRel R R2 r.kind r.pts r.sizes r.angle
+        (ptsS.map fun p => (p.1.v, p.2.v)) (x.sizes.map (·.v)) (x.angle.map (·.v)) ∧
+      (∀ p ∈ ptsS, p.1.u = lonU q o) ∧ x.pts = regionPts x.frame ptsS := by
+  obtain ⟨s, l, sh, h1, h2, h3, h4⟩ := h
+  obtain ⟨hs, -, -⟩ := toShape_inv h1
+  have s_kind : s.kind = r.kind := by rw [hs]
+  have s_coord : s.coord = flatten r.pts ++ r.sizes ++ r.angle.toList := by rw [hs]
+  clear hs h1
+  obtain ⟨items, body, hi, hb, hl, -⟩ := writeLine_inv h2
+  have l_body : l.body = body := by rw [hl]
+  clear hl h2
+  obtain ⟨m, k, pts, sz, a, hm, hgm, hsh, -, -⟩ := regionShape_inv h3
+  have sh_kind : sh.kind = k := by rw [hsh]
+  have sh_pts : sh.pts = pts := by rw [hsh]
+  have sh_sizes : sh.sizes = sz := by rw [hsh]
+  have sh_angle : sh.angle = a := by rw [hsh]
+  clear hsh h3
+  obtain ⟨hx, -, -⟩ := toRegion_inv h4
+  clear h4
+  rw [l_body] at hgm
+  obtain ⟨hv1, hv2, hv3, hv4⟩ := bodyGeom_vals body k pts sz a hgm
+  have hun := bodyGeom_lonUnits body k pts sz a hgm
+  obtain ⟨hk, hgeo⟩ := written_geometry' R R2 q o hR hR2 s r.kind r.pts r.sizes r.angle _ body s_kind s_coord hA hb
+  have hlu := written_lonUnits' q o s r.kind r.pts r.sizes r.angle _ body s_kind s_coord hA hb
+  refine ⟨by rw [hx]; show sh.kind = r.kind; rw [sh_kind, hv1, hk], pts, ?_, ?_, ?_⟩
+  · obtain ⟨bv1, -, -⟩ := buildRegion_vals sh
+    rw [hx, bv1, sh_sizes, hv2, hv3]
+    obtain ⟨g1, g2, g3⟩ := hgeo
+    refine ⟨g1, g2, ?_⟩
+    have har := arity_angle _ _ _ _ hA
+    have hxa : (buildRegion sh).angle.map (·.v) = bAngle body := by
+      simp only [buildRegion, sh_kind, sh_angle, hv1, hk]
+      rw [← hv4]
+      rw [← hv4] at g3
+      by_cases hke : r.kind = .ellipse ∨ r.kind = .rectangle
+      · rw [if_pos hke]
+        cases a with
+        | some qa => rfl
+        | none =>
+          have := har.mpr hke
+          cases hra : r.angle with
+          | none => rw [hra] at this; simp at this
+          | some ra => rw [hra] at g3; simp at g3
+      · rw [if_neg hke]
+        cases a with
+        | some qa =>
+          cases hra : r.angle with
+          | none => rw [hra] at g3; simp at g3
+          | some ra => exact absurd (har.mp (by rw [hra]; rfl)) hke
+        | none => rfl
+    rw [hxa]; exact g3
+  · intro p hp
+    have : p.1.u ∈ pts.map (fun p => p.1.u) := List.mem_map_of_mem (f := fun p : Q × Q => p.1.u) hp
+    rw [hun] at this
+    exact hlu _ this
+  · obtain ⟨-, bv2, bv3⟩ := buildRegion_vals sh
+    rw [hx, bv2, bv3, sh_pts]
+
+/-- from the chain's geometry to the property's clause (longitudes modulo whole turns). -/
+theorem geomW_of_chain (R R2 : ℚ → ℚ → Prop) (q : Quirks) (o : Opts) (r : WReg) (x : RReg)
+    (h : ∃ ptsS : List (Q × Q),
+      GeomRel R R2 r.kind r.pts r.sizes r.angle
+        (ptsS.map fun p => (p.1.v, p.2.v)) (x.sizes.map (·.v)) (x.angle.map (·.v)) ∧
+      (∀ p ∈ ptsS, p.1.u = lonU q o) ∧ x.pts = regionPts x.frame ptsS) :
+    GeomRelW R R2 r.kind r.pts r.sizes r.angle
+      (x.pts.map fun p => (p.1.v, p.2.v)) (x.sizes.map (·.v)) (x.angle.map (·.v)) := by
+  obtain ⟨ptsS, ⟨g1, g2, g3⟩, hu, hp⟩ := h
+  refine ⟨?_, g2, g3⟩
+  rw [hp]
+  refine forall₂_relPtW R g1 (regionPts_lon _ _ ?_)
+  intro p hpp
+  rw [hu p hpp]
+  exact lonU_cases q o
+
 /-- the per-region content of the round trip: if the four steps succeed on a region with the
 parameter lists of its class and a dictionary as metadata, the region read back is related
 to it by `RT`. -/
 theorem chain_rt (q : Quirks) (qn : String → String) (o : Opts) (g : String) (r : WReg) (x : RReg)
     (h : Chain q qn o g r x)
     (hA : arityOK r.kind r.pts r.sizes r.angle = true) (hn : (keys r.mt).Nodup) : RT q o r x := by
+  have hG := geomW_of_chain _ _ q o r x
+    (chain_geom (Close o.prec) (Close2 o.prec) q qn o g (close_fmt o.prec) (close2_fmt_half o.prec) r x h hA).2
   obtain ⟨s, l, sh, h1, h2, h3, h4⟩ := h
   obtain ⟨hs, -, -⟩ := toShape_inv h1
   have s_cs : s.coordsys = o.coordsys := by rw [hs]
@@ -1489,32 +1818,7 @@ theorem chain_rt (q : Quirks) (qn : String → String) (o : Opts) (g : String) (
     rw [hx]; show sh.kind = r.kind
     rw [sh_kind, hv1, hk]
   · -- geometry
-    obtain ⟨bv1, bv2⟩ := buildRegion_vals sh
-    rw [hx, bv1, bv2, sh_pts, sh_sizes, hv2, hv3]
-    obtain ⟨g1, g2, g3⟩ := hgeo
-    refine ⟨g1, g2, ?_⟩
-    have har := arity_angle _ _ _ _ hA
-    have hxa : (buildRegion sh).angle.map (·.v) = bAngle body := by
-      simp only [buildRegion, sh_kind, sh_angle, hv1, hk]
-      rw [← hv4]
-      rw [← hv4] at g3
-      by_cases hke : r.kind = .ellipse ∨ r.kind = .rectangle
-      · rw [if_pos hke]
-        cases a with
-        | some qa => rfl
-        | none =>
-          have := har.mpr hke
-          cases hra : r.angle with
-          | none => rw [hra] at this; simp at this
-          | some ra => rw [hra] at g3; simp at g3
-      · rw [if_neg hke]
-        cases a with
-        | some qa =>
-          cases hra : r.angle with
-          | none => rw [hra] at g3; simp at g3
-          | some ra => exact absurd (har.mp (by rw [hra]; rfl)) hke
-        | none => rfl
-    rw [hxa]; exact g3
+    exact hG
   · -- include sense
     rw [x_mt, hsp_incl, sh_incl, l_excl]
     simp only [shapeExcl, wExcl, s_incl]
@@ -1585,62 +1889,6 @@ theorem chain_rt (q : Quirks) (qn : String → String) (o : Opts) (g : String) (
     simp only [bKind, if_true, sh_mt, bodyMeta]
     rw [get?_erase, if_neg (by decide), get?_set_self]
 
-/-- the geometry part of the per-region chain for ANY pair of relations that hold between a
-number and its printed decimal (used twice: closeness, and exactness on the grid). -/
-theorem chain_geom (R R2 : ℚ → ℚ → Prop) (q : Quirks) (qn : String → String) (o : Opts) (g : String)
-    (hR : ∀ x, R x (fmtDec o.prec x).val) (hR2 : ∀ w, R2 w (2 * (fmtDec o.prec (w / 2)).val))
-    (r : WReg) (x : RReg) (h : Chain q qn o g r x)
-    (hA : arityOK r.kind r.pts r.sizes r.angle = true) :
-    x.kind = r.kind ∧
-    GeomRel R R2 r.kind r.pts r.sizes r.angle
-      (x.pts.map fun p => (p.1.v, p.2.v)) (x.sizes.map (·.v)) (x.angle.map (·.v)) := by
-  obtain ⟨s, l, sh, h1, h2, h3, h4⟩ := h
-  obtain ⟨hs, -, -⟩ := toShape_inv h1
-  have s_kind : s.kind = r.kind := by rw [hs]
-  have s_coord : s.coord = flatten r.pts ++ r.sizes ++ r.angle.toList := by rw [hs]
-  clear hs h1
-  obtain ⟨items, body, hi, hb, hl, -⟩ := writeLine_inv h2
-  have l_body : l.body = body := by rw [hl]
-  clear hl h2
-  obtain ⟨m, k, pts, sz, a, hm, hgm, hsh, -, -⟩ := regionShape_inv h3
-  have sh_kind : sh.kind = k := by rw [hsh]
-  have sh_pts : sh.pts = pts := by rw [hsh]
-  have sh_sizes : sh.sizes = sz := by rw [hsh]
-  have sh_angle : sh.angle = a := by rw [hsh]
-  clear hsh h3
-  obtain ⟨hx, -, -⟩ := toRegion_inv h4
-  clear h4
-  rw [l_body] at hgm
-  obtain ⟨hv1, hv2, hv3, hv4⟩ := bodyGeom_vals body k pts sz a hgm
-  obtain ⟨hk, hgeo⟩ := written_geometry' R R2 q o hR hR2 s r.kind r.pts r.sizes r.angle _ body s_kind s_coord hA hb
-  refine ⟨by rw [hx]; show sh.kind = r.kind; rw [sh_kind, hv1, hk], ?_⟩
-  obtain ⟨bv1, bv2⟩ := buildRegion_vals sh
-  rw [hx, bv1, bv2, sh_pts, sh_sizes, hv2, hv3]
-  obtain ⟨g1, g2, g3⟩ := hgeo
-  refine ⟨g1, g2, ?_⟩
-  have har := arity_angle _ _ _ _ hA
-  have hxa : (buildRegion sh).angle.map (·.v) = bAngle body := by
-    simp only [buildRegion, sh_kind, sh_angle, hv1, hk]
-    rw [← hv4]
-    rw [← hv4] at g3
-    by_cases hke : r.kind = .ellipse ∨ r.kind = .rectangle
-    · rw [if_pos hke]
-      cases a with
-      | some qa => rfl
-      | none =>
-        have := har.mpr hke
-        cases hra : r.angle with
-        | none => rw [hra] at this; simp at this
-        | some ra => rw [hra] at g3; simp at g3
-    · rw [if_neg hke]
-      cases a with
-      | some qa =>
-        cases hra : r.angle with
-        | none => rw [hra] at g3; simp at g3
-        | some ra => exact absurd (har.mp (by rw [hra]; rfl)) hke
-      | none => rfl
-  rw [hxa]; exact g3
-
 /-! ## 6. `crtf_roundtrip` -/
 
 /-- a region as a Python object can be: the parameter lists of its class, a dictionary as meta. -/
@@ -1652,7 +1900,9 @@ instance (r : WReg) : Decidable (WellFormed r) := by unfold WellFormed; infer_in
 /-- `crtf_roundtrip` (what comes back): for a list of ANY length, whenever the serialisation
 is accepted by the reader, it yields exactly one region per input region, in order, of the
 same class, with every coordinate/size/angle within half a unit of the `fmt` precision
-(ellipse full axes: one unit = half a unit on the stored semi-axis), the same
+(ellipse full axes: one unit = half a unit on the stored semi-axis; sky LONGITUDES as
+positions on the sphere, i.e. up to whole turns of 360 degrees, because the region object
+stores them wrapped into [0, 360): `RelPtW`, `relPtW_close_mod360`), the same
 include/exclude sense, the same annotation type, the same label, the scalar CRTF metadata
 (as text), and for a text region the string the writer took for it. -/
 theorem crtf_roundtrip (q : Quirks) (qn : String → String) (o : Opts) (rs : List WReg)
@@ -1987,10 +2237,6 @@ theorem toRegion_ok (sh : RShape) (h1 : checkCoords sh = .ok ()) (h2 : checkSize
   unfold toRegion; rw [h1, h2]
 
 /-! the written body, read back (explicit units, for the reader's checks) -/
-
-def cuOf (q : Quirks) (o : Opts) : CUnit := if !q.pixAsDeg && isImage o.coordsys then .pix else .deg
-
-def cQ (q : Quirks) (o : Opts) (x : ℚ) : Q := Coord.toQ (.dec (fmtDec o.prec x) (cuOf q o))
 
 def symbolOK (q : Quirks) : Option MVal → Bool
   | some v => validSymbols.contains v.pyStr
@@ -2468,28 +2714,160 @@ theorem crtf_roundtrip_fixed : crtf_roundtrip_full Quirks.fixed :=
 /-- `x` has at most `p` decimals. -/
 def OnGrid (p : Nat) (x : ℚ) : Prop := ∃ m : Nat, |x| * (10 : ℚ) ^ p = (m : ℚ)
 
+theorem onGrid_of_int (p : Nat) (x : ℚ) (z : ℤ) (h : x * (10 : ℚ) ^ p = (z : ℚ)) : OnGrid p x := by
+  have hp : (0 : ℚ) < 10 ^ p := by positivity
+  refine ⟨z.natAbs, ?_⟩
+  have : |x| * (10 : ℚ) ^ p = |x * (10 : ℚ) ^ p| := by rw [abs_mul, abs_of_pos hp]
+  rw [this, h, Nat.cast_natAbs, Int.cast_abs]
+
+theorem onGrid_int (p : Nat) (x : ℚ) (h : OnGrid p x) : ∃ z : ℤ, x * (10 : ℚ) ^ p = (z : ℚ) := by
+  obtain ⟨m, hm⟩ := h
+  by_cases hx : 0 ≤ x
+  · exact ⟨m, by rw [abs_of_nonneg hx] at hm; rw [hm]; simp⟩
+  · refine ⟨-(m : ℤ), ?_⟩
+    rw [abs_of_neg (not_le.mp hx)] at hm
+    push_cast
+    linarith
+
+/-- wrapping a longitude by whole turns of 360 keeps it on the grid. -/
+theorem onGrid_wrap (p : Nat) (v : ℚ) (h : OnGrid p v) : OnGrid p (wrap360 v) := by
+  obtain ⟨z, hz⟩ := onGrid_int p v h
+  refine onGrid_of_int p _ (z - 360 * ⌊v / 360⌋ * 10 ^ p) ?_
+  unfold wrap360
+  push_cast
+  rw [← hz]; ring
+
+theorem onGrid_lonOf (p : Nat) (v b : ℚ) (hl : LonOf v b) (h : OnGrid p v) : OnGrid p b := by
+  rcases hl with rfl | rfl
+  · exact h
+  · exact onGrid_wrap p v h
+
+theorem forall₂_grid_pts (p : Nat) {A B C : List (ℚ × ℚ)}
+    (h1 : List.Forall₂ (RelPt fun _ y => OnGrid p y) A B)
+    (h2 : List.Forall₂ (fun (s b : ℚ × ℚ) => LonOf s.1 b.1 ∧ b.2 = s.2) B C) :
+    List.Forall₂ (RelPt fun _ y => OnGrid p y) A C := by
+  induction h1 generalizing C with
+  | nil => cases h2; exact List.Forall₂.nil
+  | cons hab _ ih =>
+    cases h2 with
+    | cons hbc hr =>
+      refine List.Forall₂.cons ⟨onGrid_lonOf p _ _ hbc.1 hab.1, ?_⟩ (ih hr)
+      rw [hbc.2]; exact hab.2
+
 /-- what was read from a written line is on the grid of the precision (ellipse axes: their
-halves, which is what the file stores). -/
+halves, which is what the file stores); wrapping a longitude does not change that. -/
 theorem parsed_on_grid (q : Quirks) (qn : String → String) (o : Opts) (g : String) (r : WReg) (x : RReg)
     (h : Chain q qn o g r x) (hA : arityOK r.kind r.pts r.sizes r.angle = true) :
     GeomRel (fun _ y => OnGrid o.prec y) (fun _ y => OnGrid o.prec (y / 2)) r.kind r.pts r.sizes r.angle
-      (x.pts.map fun p => (p.1.v, p.2.v)) (x.sizes.map (·.v)) (x.angle.map (·.v)) :=
-  (chain_geom _ _ q qn o g (fun x => fmtDec_val_on_grid o.prec x)
-    (fun w => by
-      have : 2 * (fmtDec o.prec (w / 2)).val / 2 = (fmtDec o.prec (w / 2)).val := by ring
-      show OnGrid o.prec (2 * (fmtDec o.prec (w / 2)).val / 2)
-      rw [this]; exact fmtDec_val_on_grid o.prec _) r x h hA).2
+      (x.pts.map fun p => (p.1.v, p.2.v)) (x.sizes.map (·.v)) (x.angle.map (·.v)) := by
+  obtain ⟨-, ptsS, ⟨g1, g2, g3⟩, hu, hp⟩ :=
+    chain_geom (fun _ y => OnGrid o.prec y) (fun _ y => OnGrid o.prec (y / 2)) q qn o g
+      (fun x => fmtDec_val_on_grid o.prec x)
+      (fun w => by
+        have : 2 * (fmtDec o.prec (w / 2)).val / 2 = (fmtDec o.prec (w / 2)).val := by ring
+        show OnGrid o.prec (2 * (fmtDec o.prec (w / 2)).val / 2)
+        rw [this]; exact fmtDec_val_on_grid o.prec _) r x h hA
+  refine ⟨?_, g2, g3⟩
+  rw [hp]
+  refine forall₂_grid_pts o.prec g1 (regionPts_lon _ _ ?_)
+  intro pt hpt
+  rw [hu pt hpt]
+  exact lonU_cases q o
 
-/-- a region whose numbers are on the grid is read back EXACTLY. -/
+/-- a region whose numbers are on the grid is denoted EXACTLY by the line written for it. -/
 theorem on_grid_exact (q : Quirks) (qn : String → String) (o : Opts) (g : String) (w : WReg) (x : RReg)
     (h : Chain q qn o g w x) (hA : arityOK w.kind w.pts w.sizes w.angle = true) :
     x.kind = w.kind ∧
-    GeomRel (fun a y => OnGrid o.prec a → y = a) (fun a y => OnGrid o.prec (a / 2) → y = a)
-      w.kind w.pts w.sizes w.angle
-      (x.pts.map fun p => (p.1.v, p.2.v)) (x.sizes.map (·.v)) (x.angle.map (·.v)) :=
+    ∃ ptsS : List (Q × Q),
+      GeomRel (fun a y => OnGrid o.prec a → y = a) (fun a y => OnGrid o.prec (a / 2) → y = a)
+        w.kind w.pts w.sizes w.angle
+        (ptsS.map fun p => (p.1.v, p.2.v)) (x.sizes.map (·.v)) (x.angle.map (·.v)) ∧
+      (∀ p ∈ ptsS, p.1.u = lonU q o) ∧ x.pts = regionPts x.frame ptsS :=
   chain_geom (fun a y => OnGrid o.prec a → y = a) (fun a y => OnGrid o.prec (a / 2) → y = a) q qn o g
     (fun a ⟨m, hm⟩ => fmtDec_grid o.prec a m hm)
     (fun a ⟨m, hm⟩ => by rw [fmtDec_grid o.prec (a / 2) m hm]; ring) w x h hA
+
+/-- re-reading what was already stored in a region object stores the same values again
+(wrapping is idempotent; pixel values are kept). -/
+theorem regionPts_idem (f : String) (u0 : U) (P1 P2 : List (Q × Q))
+    (hu1 : ∀ p ∈ P1, p.1.u = u0) (hu2 : ∀ p ∈ P2, p.1.u = u0)
+    (hv : P2.map (fun p => (p.1.v, p.2.v)) = (regionPts f P1).map (fun p => (p.1.v, p.2.v))) :
+    (regionPts f P2).map (fun p => (p.1.v, p.2.v)) = (regionPts f P1).map (fun p => (p.1.v, p.2.v)) := by
+  unfold regionPts at hv ⊢
+  split_ifs at hv ⊢
+  · simp only [List.map_map, Function.comp_def, dropUnit] at hv ⊢
+    exact hv
+  · simp only [List.map_map, Function.comp_def] at hv ⊢
+    induction P1 generalizing P2 with
+    | nil =>
+      cases P2 with
+      | nil => rfl
+      | cons b r2 => simp at hv
+    | cons a r1 ih =>
+      cases P2 with
+      | nil => simp at hv
+      | cons b r2 =>
+        simp only [List.map_cons, List.cons.injEq, Prod.mk.injEq] at hv ⊢
+        obtain ⟨⟨hv1, hv2⟩, hvr⟩ := hv
+        have hub : b.1.u = a.1.u := by
+          rw [hu2 b List.mem_cons_self, hu1 a List.mem_cons_self]
+        refine ⟨⟨?_, hv2⟩, ih r2 (fun p hp => hu1 p (List.mem_cons_of_mem _ hp))
+          (fun p hp => hu2 p (List.mem_cons_of_mem _ hp)) hvr⟩
+        rw [wrapLon_idem a.1 b.1 hub hv1, hv1]
+
+theorem assigned_pairItems_skip (q : Quirks) (m : AList) (k : Key) (hs : writerSkip q k = true)
+    (hv : ∀ p ∈ m, writerValid q p.1 = true) : assigned false k (pairItems q m) = none := by
+  induction m with
+  | nil => rfl
+  | cons a r ih =>
+    obtain ⟨ka, va⟩ := a
+    have ih' := ih fun p hp => hv p (List.mem_cons_of_mem _ hp)
+    have hva : writerValid q ka = true := hv (ka, va) List.mem_cons_self
+    unfold pairItems at ih' ⊢
+    by_cases hsk : writerSkip q ka
+    · simp only [List.filter_cons, hsk, Bool.not_true, Bool.false_eq_true, if_false]
+      exact ih'
+    · simp only [List.filter_cons, hsk, Bool.not_false, if_true, List.map_cons, assigned, ih']
+      have : ¬ itemKey false ka.toString = k := by
+        rw [itemKey_toString q ka hva]
+        intro e; subst e; exact hsk hs
+      simp [this]
+
+/-- the region read back is in the requested frame (`coord=` is never written inline, the
+`global coord=` line names the frame, and the reader maps the name back). -/
+theorem chain_frame (q : Quirks) (qn : String → String) (o : Opts) (g : String) (r : WReg) (x : RReg)
+    (h : Chain q qn o g r x) (ho : optsOK o) (hg : coordsysTable.lookup o.coordsys = some g) :
+    x.frame = o.coordsys := by
+  have hF := optFacts_all _ ho
+  simp only [optFacts, Bool.and_eq_true, beq_iff_eq, Bool.not_eq_true', Bool.or_eq_true, bne_iff_ne,
+    ne_eq, Bool.and_eq_false_iff] at hF
+  obtain ⟨⟨⟨⟨⟨⟨⟨⟨F1, F2⟩, F3⟩, F4⟩, F5⟩, F6⟩, F7⟩, F8⟩, F9⟩ := hF
+  rw [hg] at F2
+  simp only [beq_iff_eq] at F2
+  obtain ⟨s, l, sh, h1, h2, h3, h4⟩ := h
+  obtain ⟨hs, -, -⟩ := toShape_inv h1
+  have s_cs : s.coordsys = o.coordsys := by rw [hs]
+  obtain ⟨items, body, hi, hb, hl, -⟩ := writeLine_inv h2
+  have l_items : l.items = items := by rw [hl]
+  obtain ⟨m, k, pts, sz, a, hm, hgm, hsh, -, -⟩ := regionShape_inv h3
+  have sh_cs : sh.coordsys = coordsysOf m := by rw [hsh]
+  obtain ⟨hx, -, -⟩ := toRegion_inv h4
+  have hcd : coordDiffers o s = none := by simp [coordDiffers, s_cs]
+  rw [hcd] at hi
+  have hvw : ∀ p ∈ writerMeta q s, writerValid q p.1 = true := by
+    intro p hp
+    simp only [writerMeta, List.mem_filter] at hp
+    exact hp.2
+  have hc := global_default_inline_override qn (gmeta g) m l hm .coord (by decide) (by decide) (by decide)
+  have ha : assigned false .coord l.items = none := by
+    rw [l_items, assigned_written q _ _ hi .coord (by decide) (by decide) (by decide),
+      assigned_pairItems_skip q _ .coord rfl hvw]
+  rw [ha] at hc
+  simp only [gmeta, AList.get?, if_true] at hc
+  rw [hx]
+  show sh.coordsys = o.coordsys
+  rw [sh_cs, coord_selects_frame m g hc]
+  exact F2
 
 theorem forall₂_exact_eq {P : ℚ → Prop} {l0 : List ℚ} {l1 l2 : List ℚ}
     (h1 : List.Forall₂ (fun _ y => P y) l0 l1) (h2 : List.Forall₂ (fun a y => P a → y = a) l1 l2) : l2 = l1 := by
@@ -2557,29 +2935,40 @@ theorem toW_inv {o : Opts} {x : RReg} {w : WReg} (h : toW o x = some w) :
 /-- `crtf_fixed_point` (geometry and class): serialise a region, parse it (`x`), serialise
 what was parsed (`w = toW x`: same frame and units, so astropy's conversions are
 identities), parse again (`x'`): the second result has the same class and EXACTLY the same
-numbers as the first. -/
+numbers as the first — the stored longitudes are in [0, 360) and stay where they are. -/
 theorem crtf_fixed_point (q : Quirks) (qn : String → String) (o : Opts) (g : String)
     (r : WReg) (x : RReg) (w : WReg) (x' : RReg)
+    (ho : optsOK o) (hg : coordsysTable.lookup o.coordsys = some g)
     (h1 : Chain q qn o g r x) (hA : arityOK r.kind r.pts r.sizes r.angle = true)
     (hw : toW o x = some w) (h2 : Chain q qn o g w x') :
-    x'.kind = x.kind ∧
+    x'.kind = x.kind ∧ x'.frame = x.frame ∧
     x'.pts.map (fun p => (p.1.v, p.2.v)) = x.pts.map (fun p => (p.1.v, p.2.v)) ∧
     x'.sizes.map (·.v) = x.sizes.map (·.v) ∧ x'.angle.map (·.v) = x.angle.map (·.v) := by
   obtain ⟨w_kind, w_pts, w_sizes, w_angle, -, -⟩ := toW_inv hw
-  obtain ⟨xk, gc⟩ := chain_geom (Close o.prec) (Close2 o.prec) q qn o g (close_fmt o.prec) (close2_fmt_half o.prec) r x h1 hA
+  obtain ⟨xk, ptsS1, -, hu1, hp1⟩ := chain_geom (Close o.prec) (Close2 o.prec) q qn o g (close_fmt o.prec)
+    (close2_fmt_half o.prec) r x h1 hA
   have gg := parsed_on_grid q qn o g r x h1 hA
   -- the parsed region has the parameter lists of its class
   have hAw : arityOK w.kind w.pts w.sizes w.angle = true := by
     rw [w_kind, xk, w_pts, w_sizes, w_angle]
-    refine arity_of_shape _ _ _ _ _ _ _ hA gc.1.length_eq ?_ ?_
-    · have := gc.2.1
+    refine arity_of_shape _ _ _ _ _ _ _ hA gg.1.length_eq ?_ ?_
+    · have := gg.2.1
       split_ifs at this <;> exact this.length_eq
-    · have := gc.2.2
+    · have := gg.2.2
       cases hra : r.angle <;> cases hxa : x.angle.map (·.v) <;> simp_all
-  obtain ⟨xk', ge⟩ := on_grid_exact q qn o g w x' h2 hAw
+  obtain ⟨xk', ptsS2, ge, hu2, hp2⟩ := on_grid_exact q qn o g w x' h2 hAw
   rw [w_kind, w_pts, w_sizes, w_angle] at ge
   rw [xk] at ge
-  refine ⟨by rw [xk', w_kind], forall₂_exact_pt_eq gg.1 ge.1, ?_, ?_⟩
+  have f1 : x.frame = o.coordsys := chain_frame q qn o g r x h1 ho hg
+  have f2 : x'.frame = o.coordsys := chain_frame q qn o g w x' h2 ho hg
+  -- what the second line denotes is what the first region object holds …
+  have e1 : ptsS2.map (fun p => (p.1.v, p.2.v)) = x.pts.map (fun p => (p.1.v, p.2.v)) :=
+    forall₂_exact_pt_eq gg.1 ge.1
+  refine ⟨by rw [xk', w_kind], by rw [f1, f2], ?_, ?_, ?_⟩
+  · -- … and storing it again (wrap of an already wrapped longitude) changes nothing
+    rw [hp2, f2, ← f1]
+    have := regionPts_idem x.frame (lonU q o) ptsS1 ptsS2 hu1 hu2 (by rw [e1, hp1])
+    rw [this, ← hp1]
   · have g2 := gg.2.1
     have e2 := ge.2.1
     by_cases hk : r.kind = .ellipse
@@ -2729,6 +3118,24 @@ example : bodyGeom (.box (.dec ⟨false, 1, 0⟩ .deg, .dec ⟨false, 2, 0⟩ .d
 
 /-- `dec_roundtrip` is tight: ties go to the even digit (`f'{0.125:.2f}' == '0.12'`, `f'{2.5:.0f}' == '2'`). -/
 example : (fmtDec 2 (1 / 8)).render = "0.12" ∧ (fmtDec 0 (5 / 2)).render = "2" ∧ (fmtDec 2 (-1 / 10000)).render = "-0.00" := by
+  decide +kernel
+
+/-- astropy's `Longitude` wrap, as the reader model applies it: `360deg -> 0deg`, `-1deg -> 359deg`,
+`720.5deg -> 0.5deg`, `-0deg` stays `0`; pixel coordinates are not wrapped. -/
+example : (wrapLon ⟨360, .deg, true⟩).v = 0 ∧ (wrapLon ⟨-1, .deg, true⟩).v = 359 ∧
+    (wrapLon ⟨1441 / 2, .deg, true⟩).v = 1 / 2 ∧ (wrapLon ⟨0, .deg, true⟩).v = 0 ∧
+    (wrapLon ⟨360, .none, false⟩).v = 360 ∧ (wrapLon ⟨25, .hour, true⟩).v = 1 := by decide +kernel
+
+/-- the case that motivated it: longitude 359.5539 written with `fmt='.0f'` prints `360deg`; it is
+read as longitude 0 (same position: `RT.geom` holds with `k = 1` turn), and the second
+serialisation prints `0deg` — from then on nothing changes (`crtf_fixed_point`). -/
+example : (match serialize Quirks.current ⟨"fk5", 0, "deg"⟩
+      [{ kind := .point, sky := true, pts := [(3595539 / 10000, 38)], sizes := [], angle := none, text := "",
+         mt := [], vis := [(.symbol, .str "+")] }] with
+    | .ok ls => (renderFile ls, match parse Quirks.current id ls with
+        | .ok [x] => x.pts.map (fun p => (p.1.v, p.2.v))
+        | _ => [])
+    | .error _ => ("", [])) = ("#CRTFv0\nglobal coord=J2000\nsymbol[[360deg, 38deg], +]\n", [(0, 38)]) := by
   decide +kernel
 
 end RegionsVerif.Props.C11
